@@ -855,6 +855,8 @@ def gen_history(rng, length):
         reqs += contention(rng, w)
     if rng.random() < 0.6:
         reqs += enabler_attack(rng, w, w.mut_si[0], rng.randrange(2, 6))
+    if rng.random() < 0.55:
+        reqs += realloc_requests(rng, w, rng.choice(w.imm_si), rng.randrange(1, 4))
     tail = [gen_request(rng, w, None) for _ in range(length)]
     if rng.random() < 0.5:
         k = rng.randrange(len(tail) + 1)
@@ -914,6 +916,34 @@ def gen_conn_history(rng):
         sc = rng.choice([x for x in scripts if x])
         out.append(sc.pop(0))
     return w, out
+
+
+def realloc_requests(rng, w, si, count):
+    """second allocations for a storage index that has uploads in progress: same / other share numbers x same / other
+    allocated size x same / other upload secret, each followed by the owners' and the intruder's write / abort / read"""
+    reqs = []
+    size = w.size.get(si)
+    if size is None:
+        w.target_of(si, 0)
+        size = w.size[si]
+    for _ in range(count):
+        nums = sorted(set(rng.randrange(3) for _ in range(rng.choice([1, 1, 2]))))
+        sz = size if rng.random() < 0.4 else rng.choice([s_ for s_ in (1, 3, 7, 16, 30) if s_ != size])
+        reqs.append(legit_request(rng, w, "allocate", si, nums[0], ["a", nums, sz], upload=rng.choice(w.upload)))
+        for _ in range(rng.choice([1, 2, 3])):
+            n = rng.choice(nums + [rng.randrange(3)])
+            sec = rng.choice(w.upload)
+            r = rng.random()
+            if r < 0.2:
+                reqs.append(legit_request(rng, w, "abort", si, n, ["n"], upload=sec))
+            elif r < 0.35:
+                reqs.append(legit_request(rng, w, "readImm", si, n, ["n"]))
+            else:
+                t = w.target_of(si, n)
+                a = rng.randrange(size)
+                b = rng.randrange(a + 1, size + 1)
+                reqs.append(legit_request(rng, w, "write", si, n, ["w", "bytes %d-%d/*" % (a, b - 1), t[a:b].hex()], upload=sec))
+    return reqs
 
 
 def cross_requests(rng, w, si, count):
@@ -1160,6 +1190,27 @@ def run_history(ctx, hist_id, w_swissnum, reqs, monitor_world=None):
                         if after_raw[1].get(key) != (sec, rng_, closed):
                             ctx.violation("an upload in progress changed without its upload secret", sub,
                                           "upload-secret-bypass-%s-%s" % (req["route"], req["sec"]))
+                # ... and with its secret the owner is not turned away as unauthorized / unknown
+                tkey = (req["si"], req["n"])
+                if req["pm"] == "ok" and tkey in before_raw[1] and any(v == before_raw[1][tkey][0] for (_, v) in pres) \
+                        and req["sw"] == "ok" and req["sec"] == "ok" and code in (401, 404):
+                    ctx.violation("the owner of an upload in progress was answered %d on a %s presenting the upload's secret" % (
+                        code, req["route"]), sub, "own-secret-refused:" + req["route"])
+            else:
+                # any other request (an allocation in particular) must leave every upload in progress whose secret it does
+                # not present exactly as it is: same writer state, same incoming file
+                for key, (sec, rng_, closed) in before_raw[1].items():
+                    if any(v == sec for (_, v) in pres):
+                        continue
+                    inc = [p_ for p_ in before_raw[0] if p_.endswith("/%s/%d" % key) and "/incoming/" in p_]
+                    same_file = all(after_raw[0].get(p_) == before_raw[0][p_] for p_ in inc)
+                    if after_raw[1].get(key) != (sec, rng_, closed) or not same_file:
+                        now = after_raw[1].get(key)
+                        ctx.violation("a %s request that does not present the upload secret of the in-progress share %s/%d %s it "
+                                      "(status %d)" % (req["route"], key[0], key[1],
+                                                       "removed" if now is None else "replaced" if now[0] != sec else "changed", code),
+                                      sub, "upload-taken-over-by-allocate" if req["route"] == "allocate"
+                                      else "upload-changed-by-%s" % req["route"])
             if req["route"] == "rtw":
                 enablers = {}
                 for it in before_abs.split(" "):
@@ -1424,6 +1475,26 @@ def corpus_histories():
             legit_request(rng, w, "abort", si, 1, ["n"], upload=w.upload[2]),                                  # nobody's secret
             legit_request(rng, w, "abort", si, 1, ["n"], upload=w.upload[1])]
     res.append(("cross-upload-secret", w.swissnum, reqs))
+    # --- C30-d: an allocation must not remove or replace somebody else's upload in progress, whatever size it asks for;
+    #     the owner can still finish and read its bytes back
+    w = World(rng)
+    si = w.imm_si[0]
+    t0, t1 = w.target_of(si, 0), w.target_of(si, 1)
+    size = max(w.size[si], 2)
+    w.size[si] = size
+    t0 = (t0 * 2)[:size]
+    victim, intruder = w.upload[0], w.upload[1]
+    reqs = [legit_request(rng, w, "allocate", si, 0, ["a", [0, 1], size], upload=victim),
+            legit_request(rng, w, "write", si, 0, ["w", "bytes 0-0/*", t0[:1].hex()], upload=victim),
+            legit_request(rng, w, "allocate", si, 0, ["a", [0], size + 3], upload=intruder),      # other size, other secret
+            legit_request(rng, w, "allocate", si, 0, ["a", [0, 2], size], upload=intruder),       # same size, other secret
+            legit_request(rng, w, "allocate", si, 1, ["a", [1], size + 1], upload=victim),        # other size, own secret
+            legit_request(rng, w, "write", si, 0, ["w", "bytes 0-1/*", b"\xee\xee".hex()], upload=intruder),
+            legit_request(rng, w, "abort", si, 0, ["n"], upload=intruder),
+            legit_request(rng, w, "write", si, 0, ["w", "bytes 1-%d/*" % (size - 1), t0[1:].hex()], upload=victim),
+            legit_request(rng, w, "readImm", si, 0, ["n"]),
+            legit_request(rng, w, "abort", si, 2, ["n"], upload=intruder)]
+    res.append(("allocate-over-upload", w.swissnum, reqs))
     # --- C30-b: a wrong write enabler on a slot that holds shares: new-only, mixed, existing, read-only
     w = World(rng)
     m = w.mut_si[0]
